@@ -7,8 +7,9 @@ set -u
 V=/verif
 OUT=/var/tmp/mm.$$; mkdir -p "$OUT"
 RES="$V/seeded/RESULTS.md"
-echo "| seeded change | property | check run | result | first violation reported |" > "$RES.tmp"
-echo "|---|---|---|---|---|" >> "$RES.tmp"
+TMP="$RES.tmp.$$"   # per invocation: several filtered runs may go in parallel
+echo "| seeded change | property | check run | result | first violation reported |" > "$TMP"
+echo "|---|---|---|---|---|" >> "$TMP"
 FILTER="${1:-.}"
 for d in $V/seeded/*/; do
   echo "$(basename $d)" | grep -Eq "$FILTER" || continue
@@ -17,22 +18,23 @@ for d in $V/seeded/*/; do
   checks="$id"
   [ -f "$d/also_checks" ] && checks="$checks $(cat $d/also_checks)"
   for c in $checks; do
-    WT=/tmp/mm.$n; rm -rf "$WT"; git -C /repo worktree prune
+    WT=/tmp/mm.$$.$n; rm -rf "$WT"; git -C /repo worktree prune
     git -C /repo worktree add -q --detach "$WT" HEAD || continue
     if ! git -C "$WT" apply "$d/patch.diff" 2>/dev/null && ! git -C "$WT" apply --3way "$d/patch.diff" 2>/dev/null; then
-      echo "| $n | $id | $c | patch no longer applies | |" >> "$RES.tmp"
+      echo "| $n | $id | $c | patch no longer applies | |" >> "$TMP"
       git -C /repo worktree remove --force "$WT"; continue
     fi
     mkdir -p "$OUT/$n"
     VERIF_REPO="$WT" VERIF_OUT_DIR="$OUT/$n" "$V/bin/check" "$c" quick > "$OUT/$n/$c.log" 2>&1; rc=$?
     first=$(grep -m1 "^\[$id\].* — \|^\[C[0-9]*\] C[0-9]*|" "$OUT/$n/$c.log" | sed 's/|/\\|/g' | cut -c1-220)
     case $rc in 0) r="MISSED";; 1) r="caught";; *) r="harness trouble ($rc)";; esac
-    echo "| $n | $id | $c | $r | $first |" >> "$RES.tmp"
+    echo "| $n | $id | $c | $r | $first |" >> "$TMP"
     git -C /repo worktree remove --force "$WT"
   done
 done
+exec 9>"$V/seeded/.results.lock"; flock 9
 if [ "$FILTER" != "." ] && [ -f "$RES" ]; then
-  python3 - "$RES" "$RES.tmp" <<'PY'
+  python3 - "$RES" "$TMP" <<'PY'
 import sys,re
 old=open(sys.argv[1]).read().split('\n'); new=open(sys.argv[2]).read().split('\n')
 names={l.split('|')[1].strip() for l in new[2:] if l.startswith('|')}
@@ -41,5 +43,5 @@ key=lambda l:(l.split('|')[1].strip().split('-')[0], int(l.split('|')[1].strip()
 open(sys.argv[2],'w').write('\n'.join(old[:2]+sorted(rows,key=key))+'\n')
 PY
 fi
-mv "$RES.tmp" "$RES"; rm -rf "$OUT"
+mv "$TMP" "$RES"; rm -rf "$OUT"
 cat "$RES"
